@@ -232,9 +232,12 @@ def run(ctx):
     proofexp_static(ctx, py)
     # what the guards rely on: the freshness judgement is sound on every pattern class (shared with C06) and `==` between
     # patterns is structural equality that sees through notation by expansion (shared with C12)
-    from . import c06, c12
+    from . import c06, c11, c12
     c06.python_half(ctx, py)
     c12.t2(ctx, py)
+    # the conclusion of schema instantiation IS `conclusion.instantiate(delta)`: it is the documented instance only if instantiate
+    # (and the substitutions it resolves) follow the textbook table on every pattern class (shared with C11)
+    c11.python_half(ctx, py)
     ctx.floor('rule-conclusion', 4)
     ctx.floor('rule-guard', 3)
     ctx.floor('override-chain', 9)
